@@ -80,6 +80,8 @@ class Session(object):
             whoosh.util.random = seams._RandomFacade(self.k.stream("names"))
         self.model = M.ModelIndex(cfg)
         self.stats = {}
+        self.known_hits = {}
+        self._known_sigs = None
         self._gc_was = gc.isenabled()
         gc.disable()
         _quiet_unraisable()
@@ -87,6 +89,19 @@ class Session(object):
 
     def count(self, name, n=1):
         self.stats[name] = self.stats.get(name, 0) + n
+
+    def soft(self, violation):
+        """Report a violation whose signature may be a recorded known finding:
+        a known one is noted and the run goes on (so that it cannot mask
+        anything else); any other is raised."""
+        if self._known_sigs is None:
+            from whoosim import engine
+            self._known_sigs = set(k["signature"] for k in engine.load_known()
+                                   if k.get("status") == "known")
+        if violation.sig in self._known_sigs:
+            self.known_hits[violation.sig] = self.known_hits.get(violation.sig, 0) + 1
+            return
+        raise violation
 
     def close(self):
         if self.closed:
